@@ -526,3 +526,57 @@ func ruleIntDivGuard(c *Ctx, rule string, fns []*FuncInfo, scope string) {
 		c.OK(rule, "integer divisions with a non-constant divisor", "", "", "none")
 	}
 }
+
+// ruleFieldSetByAllBuilders: every function that finishes a builder chain (calls <terminal>) also runs a
+// step that stores the field. A mode flag that one chain forgets stays at its zero value and silently
+// switches off whatever tests it.
+func ruleFieldSetByAllBuilders(c *Ctx, rule, pkg, typ, field, builderTyp, terminal, what string) {
+	p := asWritten(c.P)
+	c.Rule(rule, what+": every constructor chain that ends in "+builderTyp+"."+terminal+" runs a step that sets "+typ+"."+field)
+	fv := p.Field(pkg, typ, field)
+	term := p.Method(pkg, builderTyp, terminal)
+	if fv == nil || term == nil {
+		c.Unres(rule, typ+"."+field+" / "+builderTyp+"."+terminal, "not found")
+		return
+	}
+	setters := map[*FuncInfo]bool{}
+	for _, s := range p.StoresTo(nil, fv) {
+		setters[s.Fn] = true
+	}
+	c.Floor(rule, "functions that store "+typ+"."+field, 1, len(setters))
+	n := 0
+	for _, fn := range p.FuncsInPkg(pkg) {
+		if fn.Decl.Body == nil || recvTypeOf(fn) == builderTyp {
+			continue
+		}
+		ends := false
+		for _, cs := range p.CallsIn(fn) {
+			if cs.Callee == term {
+				ends = true
+			}
+		}
+		if !ends {
+			continue
+		}
+		n++
+		seen := map[*FuncInfo]bool{}
+		var reach func(f *FuncInfo, d int) bool
+		reach = func(f *FuncInfo, d int) bool {
+			if setters[f] {
+				return true
+			}
+			if d == 0 || seen[f] {
+				return false
+			}
+			seen[f] = true
+			for _, cs := range p.CallsIn(f) {
+				if g := p.FuncOf(cs.Callee); g != nil && reach(g, d-1) {
+					return true
+				}
+			}
+			return false
+		}
+		c.Check(reach(fn, 3), rule, fn.Key()+" sets "+field, p.Pos(fn.Decl), fn.Key(), "a step of the chain stores "+typ+"."+field, "no step of this chain (to depth 3) stores the field: it keeps its zero value in this mode")
+	}
+	c.Floor(rule, "constructor chains", 2, n)
+}
